@@ -273,8 +273,9 @@ def opname(prog, i):
     return op
 
 
-def features(prog):
-    """Sorted op-kind names of the live nodes (mechanism label part), plus structural flags."""
+def features(prog, shared=True):
+    """Sorted op-kind names of the live nodes (mechanism label part); with shared=True also the flag
+    "shared" when some non-base node has more than one consumer."""
     lv = live(prog)
     names = {opname(prog, i) for i in lv} - {"df", "col"}
     nodes = prog["nodes"]
@@ -283,7 +284,7 @@ def features(prog):
     for i in lv:
         for r in set(refs(nodes[i])):
             cnt[r] = cnt.get(r, 0) + 1
-    if any(c > 1 and nodes[i][0] != "df" for i, c in cnt.items()):
+    if shared and any(c > 1 and nodes[i][0] != "df" for i, c in cnt.items()):
         names.add("shared")
     return sorted(names)
 
@@ -381,6 +382,14 @@ def shrink_candidates(prog):
             alts = [o["n"] for o in nd[2:4] if "n" in o and nodes[o["n"]][0] not in ("red", "cbin")]
         elif op == "cbin":
             alts = [o["n"] for o in nd[2:4] if "n" in o]
+        if op in ("sbin", "cbin"):
+            for pos in (2, 3):
+                o = nd[pos]
+                if "n" in o and nodes[o["n"]][0] in ("red", "cbin"):
+                    new = [list(x) for x in nodes]
+                    new[i] = list(nd)
+                    new[i][pos] = {"k": 1.5}
+                    out.append(prune({"nodes": new, "out": prog["out"]}))
         for a in alts:
             m = {k: k for k in range(len(nodes))}
             m[i] = a
@@ -478,7 +487,7 @@ class Builder:
             op = r.choice(("add", "sub", "mul", "div"))
             k = r.choice((1, 2, 3, 0.5, -1))
             dt = "f" if op == "div" or isinstance(k, float) or self.meta[c]["dt"] == "f" else "i"
-            a, b = ({"n": c}, {"k": k}) if r.random() < 0.8 else ({"k": k}, {"n": c})
+            a, b = ({"n": c}, {"k": k}) if (op == "div" or r.random() < 0.8) else ({"k": k}, {"n": c})
             return self.add(["sbin", op, a, b], self.smeta(c, dt, self.meta[c]["name"]))
         if kind < 0.65:  # col op col
             other = self.num_series(i, depth - 1)
@@ -488,7 +497,9 @@ class Builder:
             return self.add(["sbin", op, {"n": c}, {"n": other}], self.smeta(c, dt, nm))
         if kind < 0.85:  # col op reduction (centering / scaling): shared sub-expression
             src = c if r.random() < 0.7 else self.col(0, r.choice(("a", "c", "d")))
-            agg = r.choice(("mean", "std", "max", "min", "sum"))
+            # int min/max/sum over partitions of which SOME are empty comes back as float in dask (NaN partials): a
+            # reduction defect outside this property (C37), so integer sources only meet float-valued aggregations here
+            agg = r.choice(("mean", "std", "max", "min", "sum")) if self.meta[src]["dt"] == "f" else r.choice(("mean", "std"))
             sc = self.red(src, agg)
             op = r.choice(("sub", "div", "add"))
             inner = self.add(["sbin", op, {"n": c}, {"n": sc}], self.smeta(c, "f", self.meta[c]["name"]))
@@ -668,14 +679,32 @@ class Builder:
             b2 = i if r.random() < 0.25 else self.add(["filt", i, p2], self.fmeta(i, lin=self.newlin()))
             if b1 == b2:
                 return None
-            if r.random() < 0.4:  # a blockwise step on one branch that keeps the columns
+            u = r.random()
+            if u < 0.3:  # a blockwise step on one branch that keeps the columns
                 b2n = self.step(r.choice(("fillna", "assign")), b2)
                 if b2n is not None and list(self.meta[b2n]["cols"]) == cols:
                     b2 = b2n
+            elif u < 0.5 and len(cols) >= 2:  # same columns in a different order (pandas aligns by NAME)
+                perm = cols[:]
+                r.shuffle(perm)
+                b2 = self.add(["proj", b2, perm], self.fmeta(b2, cols={c: self.meta[b2]["cols"][c] for c in perm}))
+            elif u < 0.7 and len(cols) >= 2:  # one branch lacks some columns (outer join fills NaN)
+                sub = [c for c in cols if r.random() < 0.6] or cols[:1]
+                which = b1 if r.random() < 0.5 else b2
+                pr = self.add(["proj", which, sub], self.fmeta(which, cols={c: self.meta[which]["cols"][c] for c in sub}))
+                if which == b1:
+                    b1 = pr
+                else:
+                    b2 = pr
+            c1, c2 = self.meta[b1]["cols"], self.meta[b2]["cols"]
             nc = {}
-            for c in cols:
-                k1, k2 = self.meta[b1]["cols"][c], self.meta[b2]["cols"][c]
-                nc[c] = k1 if k1 == k2 else ("f" if {k1, k2} <= set(NUM) else "o")
+            for c in list(c1) + [c for c in c2 if c not in c1]:
+                if c in c1 and c in c2:
+                    k1, k2 = c1[c], c2[c]
+                    nc[c] = k1 if k1 == k2 else ("f" if {k1, k2} <= set(NUM) else "o")
+                else:
+                    k = c1.get(c, c2.get(c))
+                    nc[c] = {"i": "f", "f": "f", "s": "s"}.get(k, "o")
             return self.add(["concat0", b1, b2], self.fmeta(i, cols=nc, lin=self.newlin(), ord=self.meta[b1]["ord"] and self.meta[b2]["ord"],
                                                            uniq=set()))
         if kind == "concat1":
@@ -706,15 +735,19 @@ class Builder:
             rcols = [key] + r.sample(others, r.randint(1, len(others)))
             a = self.add(["proj", i, lcols], self.fmeta(i, cols={c: m["cols"][c] for c in lcols}))
             b = self.add(["proj", i, rcols], self.fmeta(i, cols={c: m["cols"][c] for c in rcols}))
-            if r.random() < 0.7:
+            rfilt = False
+            if r.random() < 0.6:
                 p = self.pred(b)
                 if p is not None:
                     b = self.add(["filt", b, p], self.fmeta(b, lin=self.newlin()))
+                    rfilt = True
             if r.random() < 0.3:
                 p = self.pred(a)
                 if p is not None:
                     a = self.add(["filt", a, p], self.fmeta(a, lin=self.newlin()))
-            how = r.choice(("inner", "inner", "left"))
+            # a left join that leaves keys unmatched changes dtypes depending on the data (meta truthfulness is C42/C40),
+            # so "left" is only used when the right branch still holds every key
+            how = "inner" if rfilt else r.choice(("inner", "left"))
             nc = {}
             for c in lcols:
                 nc[c if c == key or c not in rcols else c + "_x"] = m["cols"][c]
@@ -722,8 +755,6 @@ class Builder:
                 if c == key:
                     continue
                 k = m["cols"][c]
-                if how == "left":
-                    k = {"i": "f", "b": "o", "s": "s", "f": "f"}.get(k, "o")
                 nc[c if c not in lcols else c + "_y"] = k
             return self.add(["merge", a, b, key, how],
                             {"k": "F", "cols": nc, "lin": self.newlin(), "ord": False, "idx": False, "uniq": {key}})
@@ -781,7 +812,7 @@ class Builder:
             src = i
             if len(num) != len(m["cols"]):
                 src = self.add(["proj", i, num], self.fmeta(i, cols={c: m["cols"][c] for c in num}))
-            agg = r.choice(("sum", "mean", "max", "min", "count"))
+            agg = r.choice(("sum", "mean", "count")) if "i" in self.meta[src]["cols"].values() else r.choice(("sum", "mean", "max", "min", "count"))
             return self.add(["fred", src, agg], {"k": "S", "dt": "f", "name": None, "lin": self.newlin(), "ord": True, "idx": True})
         if kind == "gb":
             keys = [c for c in m["cols"] if c.lower()[0] in ("a", "b", "e") and m["cols"][c] in ("i", "s", "b")]
